@@ -2,7 +2,7 @@
 import z3
 
 from pyvc import sv
-from pyvc.sv import Sym, MapVal, ObjVal, ListVal, SeqBox, ExcVal, TInt, TBool, TStr, TOpt, TSeq, TTup, TUn, TRec, TEnum
+from pyvc.sv import Opaque, Sym, MapVal, ObjVal, ListVal, SeqBox, ExcVal, TInt, TBool, TStr, TOpt, TSeq, TTup, TUn, TRec, TEnum
 from pyvc.engine import Model, _Raise, _PathEnd, OutOfSubset
 from pyvc.spec import FnSpec, LoopSpec, Ctx
 
@@ -65,6 +65,8 @@ def abstract_store(name="store"):
 def _st_has_blob(eng, args, kwargs, node):
     st, key = args[0], args[1]
     eng.event("has_blob", store=st, key=key)
+    if isinstance(key, sv.Opaque):
+        return TBool.fresh("has_blob_of_opaque_key")
     return Sym(st.blobs.has(KEY.lift(key).term), TBool)
 
 
